@@ -64,28 +64,26 @@ theorem returned_means_clean (rt : RT) (h : MReach rt) (hq : quiet rt.client.pc 
 
 /-- (5) **what a failing run leaves in the storage is a gap-free prefix**: in every reachable state — whatever failed, camera or
 storage, at whatever call — the storage's log of the current run is the camera's frames `0 … m-1` of that run, unchanged. -/
-theorem faulty_run_stores_a_prefix (rt : RT) (h : MReach rt) (s : Nat) (he : (getS rt s).cam.emptyEvery = 0)
-    (hm : rt.client.misused = false) (hF : 0 < (getS rt s).F) (hc : (getS rt s).sto.clean = true) :
+theorem faulty_run_stores_a_prefix (rt : RT) (h : MReach rt) (s : Nat) (hm : rt.client.misused = false) (hF : 0 < (getS rt s).F) (hc : (getS rt s).sto.clean = true) :
     ∃ m, m ≤ (getS rt s).sto.ncommit ∧
       (getS rt s).sto.log = (List.range m).map (fun j => (⟨(getS rt s).cam.run, j, j⟩ : Frame)) :=
-  C04.stored_is_a_prefix_of_the_camera_frames rt h s he hm hF hc
+  C04.stored_is_a_prefix_of_the_camera_frames rt h s hm hF hc
 
 /-- (6) **a later fault-free acquisition is complete and correct**: `disturbed` is a mark of the *current* run (cleared when the
 storage is started, set by a failing `camera_get_frame`, a failing append, an abort, a failed start, a re-configuration), so
 whatever happened to earlier acquisitions of the stream — including a camera failure that left a write region mapped — an
 acquisition that is not disturbed itself has, when the runtime is at rest again, put exactly frames `0 … N-1` into the storage. -/
-theorem acquisition_after_a_failure_is_complete (rt : RT) (h : MReach rt) (s : Nat) (he : (getS rt s).cam.emptyEvery = 0)
-    (hm : rt.client.misused = false) (hF : 0 < (getS rt s).F) (hc : (getS rt s).sto.clean = true)
+theorem acquisition_after_a_failure_is_complete (rt : RT) (h : MReach rt) (s : Nat) (hm : rt.client.misused = false) (hF : 0 < (getS rt s).F) (hc : (getS rt s).sto.clean = true)
     (hq : quiet rt.client.pc = true) (hs : rt.state ≠ .running) (hrun : 0 < (getS rt s).sto.run)
     (hnd : (getS rt s).sto.disturbed = false) :
     (getS rt s).sto.log = (List.range (getS rt s).maxFrames).map (fun j => (⟨(getS rt s).cam.run, j, j⟩ : Frame)) :=
-  C04.stopped_undisturbed_acquisition_is_complete rt h s he hm hF hc hq hs hrun hnd
+  C04.stopped_undisturbed_acquisition_is_complete rt h s hm hF hc hq hs hrun hnd
 
 /-- non-vacuity of (5) and (6): a scenario whose camera fails at its second frame call, with a second acquisition after it -/
 example : let rt := initRT 400 [some { F := 104, n := 3, camFail := some 1 }, none] [.start, .stop, .start, .stop]
-    MReach rt ∧ (getS rt 0).cam.failAt = some 1 ∧ (getS rt 0).cam.emptyEvery = 0 ∧ rt.client.misused = false ∧
+    MReach rt ∧ (getS rt 0).cam.failAt = some 1 ∧ rt.client.misused = false ∧
     0 < (getS rt 0).F ∧ (getS rt 0).sto.clean = true :=
-  ⟨.init _ _ _, by decide, by decide, by decide, by decide, by decide⟩
+  ⟨.init _ _ _, by decide, by decide, by decide, by decide⟩
 
 /-! ### the hypotheses are met: a scripted storage failure is reachable -/
 
